@@ -32,7 +32,7 @@ na = [{"property_id": pid, "reason": P.NOT_APPLICABLE.get(pid, "check not built 
       for pid in ids if pid not in P.FAMILY]
 m = {
     "version": 1,
-    "setup_cmd": "cd /verif/lean && lake build ftdriver FtProofs",
+    "setup_cmd": "cd /verif/lean && lake build ftdriver ftvalid FtProofs",
     "hooks": {
         "guard": "FUNTRACKS_VERIF",
         "enable": "no source hooks are needed: the harness observes the real code in-process (signal callbacks, monkeypatched difflib inside the harness process only); FUNTRACKS_VERIF=1 is set by ./check but read by nothing in /repo",
